@@ -2,11 +2,12 @@
    Only statements, closed by [exact lemma], with Print Assumptions beneath. *)
 From Coq Require Import String List NArith ZArith Bool Lia ZifyN ZifyNat ZifyBool.
 From J5V.lib Require Import Outcome.
-From J5V.model Require Import ProtoPrintLit ProtoPrint ProtoPrintFile ProtoParseFile.
+From J5V.model Require Import ProtoPrintLit ProtoPrint ProtoPrintFile ProtoParseFile ProtoPrintFileWf.
 From J5V.gen Require PrintGen PrintFileGen.
 From J5V.proofs Require Import ProtoPrintLitProofs ProtoPrintProofs ProtoPrintTokenProofs
   ProtoPrintFileSyntaxProofs ProtoPrintFileSortProofs ProtoPrintFileSemProofs ProtoPrintFileFullProofs.
 From J5V.proofs Require ProtoPrintFileExample ProtoPrintFileGenProofs.
+From J5V.proofs Require Import ProtoPrintFileWfProofs.
 Import ListNotations.
 Local Open Scope N_scope.
 
@@ -72,6 +73,12 @@ Theorem C05_full_partial : forall (render : xsymtab -> dfile -> list N) (scan : 
       /\ scan (render imp D') = scan (render imp D).
 Proof. exact text_roundtrip_partial. Qed.
 Print Assumptions C05_full_partial.
+
+(* the hypotheses as a computable test: the file correspondence evaluates it on every real descriptor of a
+   run (the original and the re-parsed one), so each of them is inside C05_token_roundtrip *)
+Theorem C05_wf_test_sound : forall imp D, wf_dfile_b imp D = true -> wf_dfile imp D.
+Proof. exact wf_dfile_b_sound. Qed.
+Print Assumptions C05_wf_test_sound.
 
 (* the pieces, with the re-read descriptor named *)
 Theorem C05_syntax_roundtrip : forall s, wf_file s -> parse_file (emit_file s) = Some s.
